@@ -695,16 +695,17 @@ func (r *RTPReceiver) maybeStartRepairStreamReader(track *trackStreams) { //noli
 			hasExtension := b[0]&0b10000 > 0
 			hasPadding := b[0]&0b100000 > 0
 			csrcCount := b[0] & 0b1111
-			headerLength := uint16(12 + (4 * csrcCount))
+			// int arithmetic: an extension length field of 0x3FFF or more would wrap a uint16 around
+			headerLength := 12 + (4 * int(csrcCount))
 			paddingLength := 0
 			if hasExtension {
-				headerLength += 4 * (1 + binary.BigEndian.Uint16(b[headerLength+2:headerLength+4]))
+				headerLength += 4 * (1 + int(binary.BigEndian.Uint16(b[headerLength+2:headerLength+4])))
 			}
 			if hasPadding {
 				paddingLength = int(b[i-1])
 			}
 
-			if i-int(headerLength)-paddingLength < 2 {
+			if i-headerLength-paddingLength < 2 {
 				// BWE probe packet, ignore
 				r.rtxPool.Put(b) // nolint:staticcheck
 
